@@ -44,10 +44,10 @@ func (e hexToASCIIEncoder) Decode(data []byte, length int) ([]byte, int, error) 
 	}
 
 	// to read 8 HEX digits we have to read 16 ASCII chars (bytes)
-	read := hex.EncodedLen(length)
-	if read > len(data) {
+	if length > len(data)/2 {
 		return nil, 0, errors.New("not enough data to read")
 	}
+	read := hex.EncodedLen(length)
 
 	out := make([]byte, length)
 
